@@ -1,5 +1,5 @@
 CONSTANTS
-  Modes = {"gen", "tab", "run"}
+  Modes = {"gen", "hdr", "log", "tab", "run"}
   MaxGenTables = 2
   MaxGenRows = 3
   MaxTabItems = 3
